@@ -68,6 +68,9 @@ def gen_sami_case(rng):
             r = rng.random()
             if r < 0.65:
                 events.append((t, li, gen.plain_line(rng))); per_lang[li].append((t, True))
+                if rng.random() < 0.15:
+                    # a second paragraph of the same language in the same SYNC block
+                    events.append((t, li, gen.plain_line(rng))); per_lang[li].append((t, True))
             elif r < 0.85:
                 events.append((t, li, None)); per_lang[li].append((t, False))
         t += rng.choice([1, 40, 999, 1000, 2500, 4000, 61000])
